@@ -14,41 +14,77 @@ import (
 
 func ruleCALLBACKARG(p *Program, rep *Report) {
 	rep.Rule("CALLBACK-ARG", 2, "the Flushed callback is invoked with the event count read before the flush transaction (not the counter after its reset); the ACKed callback with the ACK's own n and the length of the freed-page plan")
-	// Flushed
-	fb := p.Method("pq", "Writer", "flushBuffer")
-	doFlush := p.Method("pq", "Writer", "doFlush")
+	// Flushed: wherever the callback is invoked, its argument is computed from the active event counter, and
+	// every read of the counter that feeds it happens before anything on the flush path can have reset it
 	cbF := p.FieldVar("pq", "Writer", "flushCB")
 	active := p.FieldVar("pq", "writeState", "activeEventCount")
-	rep.Analysed(funcName(fb))
-	var flushCall ssa.CallInstruction
-	for _, c := range callsIn(fb, func(cal *ssa.Function, _ ssa.CallInstruction) bool { return cal == doFlush }) {
-		flushCall = c
+	pqFns := map[*ssa.Function]bool{}
+	for _, fn := range p.SrcFuncs() {
+		if fnPkgPath(fn) == modPath+"/pq" {
+			pqFns[fn] = true
+		}
+	}
+	effs := p.Effects()
+	mayWrite := func(ins ssa.Instruction) bool {
+		if st, ok := ins.(*ssa.Store); ok && addrField(st.Addr) == active {
+			return true
+		}
+		if c, ok := ins.(ssa.CallInstruction); ok {
+			if sc := c.Common().StaticCallee(); sc != nil && p.InRepo(sc) {
+				if e := effs.Of(sc); e != nil && e.mods[active] {
+					return true
+				}
+			}
+		}
+		return false
 	}
 	found := false
-	for _, b := range fb.Blocks {
-		for _, ins := range b.Instrs {
-			c, ok := ins.(*ssa.Call)
-			if !ok || c.Common().IsInvoke() || c.Common().StaticCallee() != nil || loadedField(c.Common().Value) != cbF {
-				continue
-			}
-			found = true
-			key := "Writer.flushBuffer|Flushed-arg"
-			arg := stripConv(c.Common().Args[0])
-			ld, isLoad := arg.(*ssa.UnOp)
-			switch {
-			case !isLoad || loadedField(arg) != active:
-				rep.Bad("CALLBACK-ARG", key, p.InstrPos(c), "the Flushed callback is not called with a value read from the active event counter")
-			case flushCall == nil:
-				rep.Unknown("CALLBACK-ARG", key, p.InstrPos(c), "doFlush is no longer called from flushBuffer (anchor lost)")
-			case ld.Block() == flushCall.Block() && instrIndex(ld.Block(), ld) < instrIndex(flushCall.Block(), flushCall), ld.Block() != flushCall.Block() && ld.Block().Dominates(flushCall.Block()):
-				rep.OK("CALLBACK-ARG", key, p.InstrPos(c), "argument is the event count read before the flush transaction")
-			default:
-				rep.Bad("CALLBACK-ARG", key, p.InstrPos(c), "the Flushed callback is called with the event counter read after the flush (after its reset): it reports the wrong number of flushed events")
+	for fn := range pqFns {
+		for _, b := range fn.Blocks {
+			for _, ins := range b.Instrs {
+				c, ok := ins.(*ssa.Call)
+				if !ok || c.Common().IsInvoke() || c.Common().StaticCallee() != nil || loadedField(c.Common().Value) != cbF || len(c.Common().Args) < 1 {
+					continue
+				}
+				found = true
+				rep.Analysed(funcName(fn))
+				key := "Writer|Flushed-arg"
+				sl := &slicer{p: p, fields: map[*types.Var]bool{}, seen: map[sliceKey]bool{}, dataOnly: true, within: pqFns}
+				sl.walk(c.Common().Args[0], 0, nil, 0)
+				var loads []*ssa.UnOp
+				for _, l := range sl.loads {
+					if loadedField(l) == active {
+						loads = append(loads, l)
+					}
+				}
+				if len(loads) == 0 {
+					rep.Bad("CALLBACK-ARG", key, p.InstrPos(c), "the Flushed callback is not called with a value read from the active event counter")
+					continue
+				}
+				stale := ""
+				for _, l := range loads {
+					lb := l.Block()
+					for _, b2 := range l.Parent().Blocks {
+						for j, w := range b2.Instrs {
+							if !mayWrite(w) {
+								continue
+							}
+							if (b2 == lb && j < instrIndex(lb, l)) || (b2 != lb && reachableAvoiding(b2, nil, nil)[lb]) {
+								stale = p.InstrPos(w)
+							}
+						}
+					}
+				}
+				if stale == "" {
+					rep.OK("CALLBACK-ARG", key, p.InstrPos(c), "argument is the event count read before the flush can reset it")
+				} else {
+					rep.Bad("CALLBACK-ARG", key, p.InstrPos(c), "the Flushed callback is called with the event counter read after it may have been changed on the flush path (at "+stale+"): it reports the wrong number of flushed events")
+				}
 			}
 		}
 	}
 	if !found {
-		rep.Bad("CALLBACK-ARG", "Writer.flushBuffer|Flushed-arg", p.Pos(fb.Pos()), "flushBuffer no longer invokes the Flushed callback")
+		rep.Bad("CALLBACK-ARG", "Writer|Flushed-arg", "", "no function of package pq invokes the Flushed callback any more")
 	}
 	// ACKed: wherever the callback is invoked (cleanup itself or its caller), its first argument is computed from
 	// the ACK's own event count (a parameter of the ACK path) and its second from the free plan (ackState.free)
